@@ -14,7 +14,7 @@ class C04(Property):
                          "record_lines_accepted_editor", "record_lines_accepted_difficulty", "record_lines_accepted_general",
                          "record_lines_accepted_events", "lines_dispatched", "record_blocks_accepted_and_recovered",
                          "hitobject_lines_accepted_partial", "slider_line_accepted", "slider_path_text_clean", "hitobject_lines_accepted",
-                         "slider_line_leaves_clean_buffer"]
+                         "slider_line_leaves_clean_buffer", "hitobjects_block_accepted"]
     partial_theorems = {
         "record_lines_accepted_editor / _difficulty / _general / _events, record_blocks_accepted_and_recovered":
             "law-dependent: proved for every number codec satisfying CodecLaws (+ IntPrintLaw for AudioLeadIn), shown satisfiable by Lemmas/ToyCodec.lean; not proved of Rust's "
@@ -33,6 +33,8 @@ class C04(Property):
             "its computed curve is longer than 131072 (witness `0,0,1000,2,0,L|131072:131072|-131072:-131072|131072:131072,1`: `lines` oracle: encoder wrote a line its decoder rejects): finding F20, kept as the explicit "
             "hypothesis RepSlider.distRep. Acceptance alone needs less than RepPath (a repeated point makes the round trip lose a control point, not the line rejected); that weaker "
             "acceptance-only statement is not proved separately. That every object of a DECODED map is representable is not proved here",
+        "hitobjects_block_accepted": "law-dependent; conditional on every object of the map being representable (SliderRt.RepObject): encode_hit_objects succeeds, the block is `[HitObjects]` plus "
+            "one LF-free record line per object (the ListBlockShape that record_blocks_accepted_and_recovered assumes), and every line is accepted when the block is run from any decoder state",
         "line acceptance for [TimingPoints] lines and the per-map assembly (timing_lines_accepted, list_block_lines_accepted_statement)":
             "NOT yet theorems (`def list_block_lines_accepted_statement : Prop`); record_blocks_accepted_and_recovered assumes of these two blocks only that they are LF-terminated lines that "
             "are neither headers nor skipped. Evaluated on the implementation by the `lines` oracle (a wrapping decoder logs every parser call of the re-decode: no line lost, none "
